@@ -98,6 +98,10 @@ func c08build(kind string, r *rand.Rand, variant int) (enc []byte, dec c08decode
 			sig = c08largeSig(&g, r)
 		}
 		var b ref.Buf
+		if r.IntN(300) == 0 {
+			sig = c08huge(&b, r, true)
+			return b.Bytes(), func(rd io.Reader) error { _, e := value.NewValue(rd); return e }, "value of signature " + sig + " (huge)", nil
+		}
 		b.Str(sig)
 		g.Data(sig, &b, 3)
 		return b.Bytes(), func(rd io.Reader) error { _, e := value.NewValue(rd); return e }, "value of signature " + sig, nil
@@ -107,7 +111,11 @@ func c08build(kind string, r *rand.Rand, variant int) (enc []byte, dec c08decode
 			sig = c08largeSig(&g, r)
 		}
 		var b ref.Buf
-		g.Data(sig, &b, 3)
+		if r.IntN(300) == 0 {
+			sig = c08huge(&b, r, false)
+		} else {
+			g.Data(sig, &b, 3)
+		}
 		tr, e := signature.MakeReader(sig)
 		if e != nil {
 			return nil, nil, "", fmt.Errorf("MakeReader(%q): %v", sig, e)
@@ -251,6 +259,36 @@ func c08build(kind string, r *rand.Rand, variant int) (enc []byte, dec c08decode
 // c08largeSig picks a signature with a string or a raw buffer in it and lets
 // the generator draw one of them large (beyond any plausible chunk size of
 // the read path, and exactly on the powers of two it could be).
+// c08huge writes a list or a map whose elements take more room than any
+// plausible limit of a reader (beyond ten and beyond sixteen megabytes) and
+// returns its signature; withSig writes the signature in front (a dynamic
+// value).
+func c08huge(b *ref.Buf, r *rand.Rand, withSig bool) string {
+	sig := []string{"[I]", "[s]", "{sI}", "[(II)]"}[r.IntN(4)]
+	bytesWanted := []int{10<<20 + 4096, 11 << 20, 16<<20 + 100}[r.IntN(3)]
+	if withSig {
+		b.Str(sig)
+	}
+	per := map[string]int{"[I]": 4, "[s]": 8, "{sI}": 12, "[(II)]": 8}[sig]
+	n := bytesWanted/per + 1
+	b.U32(uint32(n))
+	for i := 0; i < n; i++ {
+		switch sig {
+		case "[I]":
+			b.U32(uint32(i))
+		case "[s]":
+			b.Str("abcd")
+		case "{sI}":
+			b.Str(fmt.Sprintf("%04x", i&0xffff))
+			b.U32(uint32(i))
+		default:
+			b.U32(uint32(i))
+			b.U32(uint32(i))
+		}
+	}
+	return sig
+}
+
 func c08largeSig(g *sio.SigGen, r *rand.Rand) string {
 	n := 1
 	g.Large = &n
@@ -317,7 +355,21 @@ func (c08) Run(c *core.Case, env *core.Env) {
 		}
 		h := env.Invoke(0, "truncate", fmt.Sprintf("#%d %s, %d bytes", i, desc, L))
 		cuts := make([]int, 0, L)
-		if L <= 4096 {
+		huge := L > 4<<20
+		if huge {
+			// a few cuts only (every decode reads megabytes): the end, the
+			// middle, and around the sizes a reader might stop at
+			cuts = append(cuts, L-1, L-3, L-4, L-5, L-4000, L/2, 8)
+			for _, b := range []int{1 << 20, 4 << 20, 8 << 20, 10 << 20, 16 << 20} {
+				for _, d := range []int{-1, 0, 1, 9, 4097} {
+					if b+d > 0 && b+d < L {
+						cuts = append(cuts, b+d)
+					}
+				}
+			}
+			env.Probe("cuts-sampled-not-exhaustive")
+			env.Probe("encodings-beyond-ten-megabytes")
+		} else if L <= 4096 {
 			for k := 0; k < L; k++ {
 				cuts = append(cuts, k)
 			}
@@ -344,6 +396,9 @@ func (c08) Run(c *core.Case, env *core.Env) {
 			// the readers the library itself hands to the decoders: a
 			// bytes.Buffer / bytes.Reader holding exactly what arrived
 			for _, rk := range []string{"bytes.Buffer", "bytes.Reader", "bufio.Reader"} {
+				if huge && rk != "bytes.Reader" {
+					continue
+				}
 				var rd io.Reader
 				switch rk {
 				case "bytes.Buffer":
@@ -363,9 +418,12 @@ func (c08) Run(c *core.Case, env *core.Env) {
 			if failed {
 				break
 			}
-			for _, end := range c08endings {
+			for ei, end := range c08endings {
 				for _, frag := range []string{"greedy", "random"} {
 					if end.withEnd && k == 0 {
+						continue
+					}
+					if huge && (frag != "greedy" || ei != k%len(c08endings)) {
 						continue
 					}
 					rd := &sio.Reader{Data: enc[:k], Frag: frag, R: r, EndErr: end.err, WithEnd: end.withEnd}
